@@ -2,7 +2,7 @@
    Statements only; each closed by [exact] of a lemma proved in CodeGen/NamesP.v
    or CodeGen/UniqueP.v, or a computed witness. *)
 From Coq Require Import List NArith Bool.
-From PB Require Import Base.PBytes CodeGen.NamesModel CodeGen.NamesP CodeGen.UniqueModel CodeGen.UniqueP.
+From PB Require Import Base.PBytes CodeGen.NamesModel CodeGen.NamesP CodeGen.UniqueModel CodeGen.UniqueP CodeGen.OpaqueModel.
 Import ListNotations.
 Open Scope N_scope.
 
@@ -147,3 +147,28 @@ Proof.
   split; [discriminate|reflexivity].
 Qed.
 Print Assumptions C42_wrappers_distinct_refuted.
+
+(* ---------- opaque API (protogen_opaque.go) ----------
+   "the accessor methods Get/Set/Has/Clear<camelCase> and Has/Clear/Which<oneof> of a
+   message are pairwise distinct": refuted twice.
+   F18: _foo and X_foo both camel-case to XFoo and are renamed XFoo_1, XFoo_2; the
+   field x_foo_2 is XFoo_2 already. *)
+Theorem C42_opaque_suffix_collision_refuted :
+  exists fs, ~ NoDup (opaque_methods fs [] []).
+Proof.
+  exists [ mkofield [ "_"; "f"; "o"; "o" ]%byte 1 None true;
+           mkofield [ "X"; "_"; "f"; "o"; "o" ]%byte 2 None true;
+           mkofield [ "x"; "_"; "f"; "o"; "o"; "_"; "2" ]%byte 3 None true ].
+  intros H. apply nodupb_nodup in H. vm_compute in H. discriminate.
+Qed.
+Print Assumptions C42_opaque_suffix_collision_refuted.
+(* F19: two oneofs x_x and XX (the open API names them XX and XX_; the opaque API
+   uses the camel-case name and resolves collisions between fields only) *)
+Theorem C42_opaque_oneof_collision_refuted :
+  exists fs onames real, ~ NoDup (opaque_methods fs onames real).
+Proof.
+  exists [ mkofield [ "a" ]%byte 1 (Some 0) true; mkofield [ "b" ]%byte 2 (Some 1) true ],
+         [ [ "x"; "_"; "x" ]%byte; [ "X"; "X" ]%byte ], [ true; true ].
+  intros H. apply nodupb_nodup in H. vm_compute in H. discriminate.
+Qed.
+Print Assumptions C42_opaque_oneof_collision_refuted.
